@@ -139,6 +139,7 @@ FRAGMENTS = [
 
 #: fragments that make sense for any rank (run on 1-D, 2-D and 3-D inputs)
 FRAGMENTS_ANY = [
+    "y = torch.zeros((2, *t.shape))\ny[0] = t.unsqueeze(0)\ny[1] = t.unsqueeze(0).unsqueeze(0) * 2\nr = y",
     "idx = [1, 0]\nr = t[idx] if t.shape[0] > 1 else t",
     "y = t.clone()\nidx = [0]\ny[idx] = 5\nr = y",
     "idx = list(range(t.shape[0]))[::-1]\nr = t[idx]",
